@@ -111,6 +111,14 @@ pub struct Scene {
     /// increases leftwards (upwards) on the screen — e.g. a y-up viewport. Not available through Door::Camera.
     #[serde(default)]
     pub flip: [bool; 2],
+    /// the NDC-to-screen matrix additionally exchanges the axes (screen x from NDC y and vice versa): a transposed
+    /// framebuffer. render() accepts any NdcToScreen matrix; this one has off-diagonal terms and a negative determinant.
+    #[serde(default)]
+    pub swap_axes: bool,
+    /// type of the varying handed through the pipeline: 0 = f32; 1 = (f32, f32) with the attribute in the SECOND slot;
+    /// 2 = ((f32, f32), f32) nested, attribute in the innermost second slot
+    #[serde(default)]
+    pub attr_mode: u8,
 }
 
 pub fn sentinel_color(i: usize) -> u32 {
@@ -255,13 +263,57 @@ pub fn vp_bounds(sc: &Scene) -> [u32; 4] {
 
 fn viewport_matrix(sc: &Scene) -> Mat4x4<re::render::NdcToScreen> {
     let [sx, sy, ex, ey] = vp_bounds(sc);
-    viewport(pt2(sx, sy)..pt2(ex, ey))
+    let m = viewport(pt2(sx, sy)..pt2(ex, ey));
+    if !sc.swap_axes {
+        return m;
+    }
+    // screen x = sx + (ndc_y + 1)/2 (ex - sx), screen y = sy + (ndc_x + 1)/2 (ey - sy)
+    let a = m.0;
+    Mat4x4::new([[0.0, a[0][0], 0.0, a[0][3]], [a[1][1], 0.0, 0.0, a[1][3]], a[2], a[3]])
+}
+
+/// The varying types a scene can push through the pipeline (the attribute value itself is always one f32).
+pub trait SceneVar: Vary + re::math::Lerp + Clone + 'static {
+    fn make(a: f32) -> Self;
+    fn get(&self) -> f32;
+}
+impl SceneVar for f32 {
+    fn make(a: f32) -> Self {
+        a
+    }
+    fn get(&self) -> f32 {
+        *self
+    }
+}
+impl SceneVar for (f32, f32) {
+    fn make(a: f32) -> Self {
+        (1.0 - a, a)
+    }
+    fn get(&self) -> f32 {
+        self.1
+    }
+}
+impl SceneVar for ((f32, f32), f32) {
+    fn make(a: f32) -> Self {
+        ((0.5, a), -a)
+    }
+    fn get(&self) -> f32 {
+        self.0 .1
+    }
 }
 
 fn draw_into<T: Target>(sc: &Scene, which: &[usize], target: &mut T, ctx: &Context, calls: &Cell<u64>, somes: &Cell<u64>, record: &std::cell::RefCell<Option<Vec<(u32, u32, f32)>>>) {
+    match sc.attr_mode {
+        1 => draw_typed::<T, (f32, f32)>(sc, which, target, ctx, calls, somes, record),
+        2 => draw_typed::<T, ((f32, f32), f32)>(sc, which, target, ctx, calls, somes, record),
+        _ => draw_typed::<T, f32>(sc, which, target, ctx, calls, somes, record),
+    }
+}
+
+fn draw_typed<T: Target, V: SceneVar>(sc: &Scene, which: &[usize], target: &mut T, ctx: &Context, calls: &Cell<u64>, somes: &Cell<u64>, record: &std::cell::RefCell<Option<Vec<(u32, u32, f32)>>>) {
     let discard = sc.cfg.discard;
     let id_mode = sc.shader_mode == 1;
-    let fs = move |f: Frag<f32>| -> Option<Color4> {
+    let fs = move |f: Frag<V>| -> Option<Color4> {
         calls.set(calls.get() + 1);
         if let Some(r) = record.borrow_mut().as_mut() {
             r.push((f.pos.x() as u32, f.pos.y() as u32, f.pos.z()));
@@ -273,7 +325,8 @@ fn draw_into<T: Target>(sc: &Scene, which: &[usize], target: &mut T, ctx: &Conte
             }
         }
         somes.set(somes.get() + 1);
-        Some(color_of_bits(if id_mode { f.var.round() as i64 as u32 } else { f.var.to_bits() }))
+        let a = f.var.get();
+        Some(color_of_bits(if id_mode { a.round() as i64 as u32 } else { a.to_bits() }))
     };
     let all: Vec<usize> = (0..sc.tris.len()).collect();
     let (faces, which): (Vec<Tri<usize>>, &[usize]) = if sc.shared_verts {
@@ -283,12 +336,12 @@ fn draw_into<T: Target>(sc: &Scene, which: &[usize], target: &mut T, ctx: &Conte
     };
     match sc.door {
         Door::Render | Door::Batch => {
-            let verts: Vec<Vertex<ClipVec, f32>> = which
+            let verts: Vec<Vertex<ClipVec, V>> = which
                 .iter()
                 .flat_map(|&t| (0..3).map(move |i| (t, i)))
-                .map(|(t, i)| vertex(fs4(sc.tris[t][i]).into(), sc.attrs[t][i].0))
+                .map(|(t, i)| vertex(fs4(sc.tris[t][i]).into(), V::make(sc.attrs[t][i].0)))
                 .collect();
-            let vs = |v: Vertex<ClipVec, f32>, _: ()| v;
+            let vs = |v: Vertex<ClipVec, V>, _: ()| v;
             let shader = Shader::new(vs, fs);
             if sc.door == Door::Render {
                 render(&faces, &verts, &shader, (), viewport_matrix(sc), target, ctx);
@@ -297,15 +350,15 @@ fn draw_into<T: Target>(sc: &Scene, which: &[usize], target: &mut T, ctx: &Conte
             }
         }
         Door::Camera => {
-            let verts: Vec<Vertex<Point3<Model>, f32>> = which
+            let verts: Vec<Vertex<Point3<Model>, V>> = which
                 .iter()
                 .flat_map(|&t| (0..3).map(move |i| (t, i)))
                 .map(|(t, i)| {
                     let p = fs4(sc.tris[t][i]);
-                    vertex(pt3(p[0], p[1], p[2]), sc.attrs[t][i].0)
+                    vertex(pt3(p[0], p[1], p[2]), V::make(sc.attrs[t][i].0))
                 })
                 .collect();
-            let vs = |v: Vertex<Point3<Model>, f32>, (tf, _): (&Mat4x4<ModelToProj>, ())| vertex(tf.apply(&v.pos), v.attrib);
+            let vs = |v: Vertex<Point3<Model>, V>, (tf, _): (&Mat4x4<ModelToProj>, ())| vertex(tf.apply(&v.pos), v.attrib);
             let shader = Shader::new(vs, fs);
             let cam = Camera::new((sc.bw, sc.bh)).viewport((sc.vp[0]..sc.vp[2], sc.vp[1]..sc.vp[3]));
             let cam = match sc.proj.as_ref().expect("camera door needs a projection") {
@@ -389,12 +442,33 @@ pub fn clip_poly64_off(tri: &[[f64; 4]; 3], off: f64) -> Vec<[f64; 4]> {
 /// Screen position of a clip-space point under the scene's viewport.
 pub fn to_screen(sc: &Scene, p: [f64; 4]) -> P2 {
     let [l, t, r, b] = vp_bounds(sc).map(|v| v as f64);
-    [l + (p[0] / p[3] + 1.0) / 2.0 * (r - l), t + (p[1] / p[3] + 1.0) / 2.0 * (b - t)]
+    let (nx, ny) = if sc.swap_axes { (p[1] / p[3], p[0] / p[3]) } else { (p[0] / p[3], p[1] / p[3]) };
+    [l + (nx + 1.0) / 2.0 * (r - l), t + (ny + 1.0) / 2.0 * (b - t)]
 }
 
 pub fn to_ndc(sc: &Scene, s: P2) -> P2 {
     let [l, t, r, b] = vp_bounds(sc).map(|v| v as f64);
-    [2.0 * (s[0] - l) / (r - l) - 1.0, 2.0 * (s[1] - t) / (b - t) - 1.0]
+    let (a, c) = (2.0 * (s[0] - l) / (r - l) - 1.0, 2.0 * (s[1] - t) / (b - t) - 1.0);
+    if sc.swap_axes {
+        [c, a]
+    } else {
+        [a, c]
+    }
+}
+
+/// +1 if the NDC-to-screen map preserves orientation, -1 if it reverses it (one mirrored axis, or exchanged axes)
+pub fn screen_parity(sc: &Scene) -> i32 {
+    let mut p = 1;
+    if sc.flip[0] {
+        p = -p;
+    }
+    if sc.flip[1] {
+        p = -p;
+    }
+    if sc.swap_axes {
+        p = -p;
+    }
+    p
 }
 
 /// Reference triangle: clip coordinates, and the triangle clipped exactly (f64) against
